@@ -232,13 +232,13 @@ func TestVerif_C02(t *testing.T) {
 			run.Sample(map[string]any{"label": label, "config": h.Cfg.describe(), "ops": len(e.Ops()), "traces": len(f.Order), "kept": kept, "dropped": dropped, "late": late, "refused": refused})
 		}
 	}
-	run.Cases("lifecycle", run.N(120, 8000), func(i int, rng *verifkit.Rand) {
+	run.Cases("lifecycle", run.N(120, 1500), func(i int, rng *verifkit.Rand) {
 		one("lifecycle", rng, E1Profile{MaxSteps: steps, SmallKept: rng.Chance(0.05)}, i)
 	})
-	run.Cases("tiny-queues", run.N(50, 2000), func(i int, rng *verifkit.Rand) {
+	run.Cases("tiny-queues", run.N(50, 500), func(i int, rng *verifkit.Rand) {
 		one("tiny", rng, E1Profile{MaxSteps: steps, TinyQueues: true}, i)
 	})
-	run.Cases("dry-run", run.N(30, 2000), func(i int, rng *verifkit.Rand) {
+	run.Cases("dry-run", run.N(30, 500), func(i int, rng *verifkit.Rand) {
 		one("dry", rng, E1Profile{MaxSteps: steps, DryRun: true}, i)
 	})
 }
